@@ -97,6 +97,15 @@ type vcReplayer struct {
 }
 
 // memOf reads the algorithm's memory of the peers that have the bundle called name already (as peer names).
+func vhHasStr(xs []string, x string) bool {
+	for _, y := range xs {
+		if y == x {
+			return true
+		}
+	}
+	return false
+}
+
 // innerAlgo: the algorithm that keeps the memory (the one the sensor-mule wrapper wraps, if there is a wrapper).
 func (r *vcReplayer) innerAlgo() Algorithm {
 	if snm, ok := r.w.c.routing.(*SensorNetworkMuleRouting); ok {
@@ -899,7 +908,18 @@ func (r *vcReplayer) run() string {
 		for _, x := range reps {
 			obsR = append(obsR, rk(x))
 		}
+		okObs := map[string]bool{}
+		for _, sd := range sends {
+			if sd.Ok {
+				okObs[sd.Name] = true
+			}
+		}
 		for _, x := range s.Exp.Reports {
+			if x.Kind == "forwarded" && !okObs[x.B] && !vhHasStr(obsR, rk(x)) {
+				// the transmission the model expects did not take place (a divergence judged above, under the property it concerns):
+				// no forwarding happened, so no report of one is what C15 asks for
+				continue
+			}
 			expR = append(expR, rk(x))
 		}
 		if vcSet(obsR) != vcSet(expR) {
